@@ -3,6 +3,8 @@
 -/
 import Fx.Lemmas.NoPanic
 import Fx.Lemmas.EmitPlans
+import Fx.Lemmas.Terminates
+import Fx.Lemmas.Fuel
 namespace Fx.C04
 open Fx
 
@@ -60,5 +62,40 @@ example : readBytes 1 ⟨0, [9], []⟩ = .err .invalidLength [] := by
 /-- non-vacuity of `Plans.Ok`: a plan with a struct referring to itself through an optional and a counted array -/
 example : (Plans.mk [⟨"s", false, .struct [.plain "a" (.one (.prim .u32)), .optional "n" "s", .plain "xs" (.varArr "s" false none)]⟩] []).Ok = true := by
   decide
+
+/-- **C04 (termination).**  If the types of the plans are finite — every reference to another decoder that is not behind
+    `Option<Box<_>>` or `Vec<_>` goes to a type of lower rank; `Plans.finite` computes a ranking and checks it, and rustc rejects
+    the others as infinitely sized — then for EVERY buffer and every decoder there is a recursion budget from which on the model
+    never answers "out of fuel": the computation the evaluator describes terminates.  The bound is uniform in the buffer length
+    (`eval_terminates`), and by `C03_fuel_irrelevant` the answer is the same for every sufficient budget. -/
+theorem C04_terminates (a : Ast) (p : Plans) (hfin : p.finite = true) (name : String) (c : Cur) :
+    ∃ F, ∀ f, F ≤ f → evalImpl a p f name c ≠ .outOfFuel := by
+  obtain ⟨F, hF⟩ := eval_terminates a p _ (p.finite_ranked hfin) c.remaining
+  exact ⟨F, fun f hf => hF name c (Nat.le_refl _) f hf⟩
+
+/-- **C04, the property's own words**: for well-formed plans with finite types, EVERY byte string and every declared decoder,
+    the outcome is `Ok` or `Err` — not a panic, not an abort, not a failure to terminate — and it is one outcome, independent of
+    the budget. -/
+theorem C04_ok_or_err (a : Ast) (p : Plans) (hp : p.Ok = true) (hfin : p.finite = true) (name : String)
+    (hn : (p.findImpl name).isSome = true) (c : Cur) :
+    ∃ F, ((∃ v c', ∀ f, F ≤ f → evalImpl a p f name c = .ok v c') ∨ (∃ e l, ∀ f, F ≤ f → evalImpl a p f name c = .err e l)) := by
+  obtain ⟨F, hF⟩ := C04_terminates a p hfin name c
+  have hbad := C04_no_panic a p hp name hn F c
+  have hno := hF F (Nat.le_refl _)
+  have hmono : ∀ f, F ≤ f → evalImpl a p f name c = evalImpl a p F name c :=
+    fun f hf => evalImpl_fuel_mono a p name c F f hf hno
+  refine ⟨F, ?_⟩
+  cases hr : evalImpl a p F name c with
+  | ok v c' => exact Or.inl ⟨v, c', fun f hf => by rw [hmono f hf, hr]⟩
+  | err e l => exact Or.inr ⟨e, l, fun f hf => by rw [hmono f hf, hr]⟩
+  | panic s => rw [hr] at hbad; cases hbad
+  | abort => rw [hr] at hbad; cases hbad
+  | outOfFuel => exact absurd hr hno
+
+/-- non-vacuity: a recursive list type (`struct node { unsigned v; node *next; }`) is finite — the recursion is behind a `Box` -/
+example : (Plans.mk [⟨"node", false, .struct [.plain "v" (.one (.prim .u32)), .optional "next" "node"]⟩] []).finite = true := by decide
+
+/-- and a type that contains itself directly is not -/
+example : (Plans.mk [⟨"bad", false, .struct [.plain "x" (.one (.tryFrom "bad"))]⟩] []).finite = false := by decide
 
 end Fx.C04
